@@ -13,7 +13,7 @@ Layers (DESIGN.md §4 C17):
                   no failure after transform_ast returned ("Inconsistent ASTs detected" included), source-map ranges.
   verified checker `ctxOk` (sound + complete for CtxWellFormed) on the serialised tree returned by transform_ast.
 """
-import collections, concurrent.futures, glob, json, multiprocessing, os, sys, time
+import collections, concurrent.futures, glob, json, multiprocessing, os, subprocess, sys, time
 
 import common
 from common import sexp, parse_sexp
@@ -123,7 +123,14 @@ def build_programs(run):
         src = progen.PRELUDE + 'def f(a, b, c, l):\n    x = a\n    %s\n    return x\n' % st
         p = progen.Program(src, [], ['assert_feature'], 'assertfeat')
         items.append((p, acfg, False, True))
-    info['counts'] = {'assert_feature': len(asserts), 'unusual_forms': len([1 for it in items if it[0].kind == 'unusual']) - n_un, 'unusual_random': n_un,
+    # 5. lambda entities (the transpiler wraps them as `ag__lam = lambda ...`)
+    lams = ['lambda a, b, c, l: (a, -1 ** 2, [i for i in l])', 'lambda a, b=-1, *c, l=(1,), **k: a if b else (c, l, k)',
+            'lambda a, b, c, l: f"{a!r:>{b}}" + str(l[::2])', 'lambda a, b, c, l: (lambda q=a: q < b < c)()',
+            'lambda a, b, c, l: {**{1: a}, 2: [*l]}', 'lambda a, b, c, l: tr(a) and not b or c']
+    for i, lam in enumerate(lams):
+        p = progen.Program(progen.PRELUDE + 'f = ' + lam + '\n', [], ['lambda_entity'], 'lambdaent')
+        items.append((p, [cfgs[(i * 3) % 16], cfgs[(i * 3 + 7) % 16]], True, True))
+    info['counts'] = {'lambda_entities': len(lams), 'assert_feature': len(asserts), 'unusual_forms': len([1 for it in items if it[0].kind == 'unusual']) - n_un, 'unusual_random': n_un,
                       'skeletons': len(sk), 'random': len(rp)}
     return items, info
 
@@ -496,6 +503,23 @@ def check(run):
             feats[f] += len(cs)
     t1 = time.time()
     recs = run_jobs(items, nworkers)
+    # a slice again under other PYTHONHASHSEEDs (fresh interpreters): set iteration order reaches the generated code
+    hs_items = [it for it in items if it[0].kind in ('skeleton', 'random', 'unusual')][::max(1, len(items) // (24 if run.tier == 'quick' else 90))]
+    hseeds = [run.seed * 11 + k + 1 for k in range(1 if run.tier == 'quick' else 3)]
+    for hs in hseeds:
+        job = {'items': [(p.key, p.source, [list(c) for c in cs[:2]], False, False) for (p, cs, _, _) in hs_items]}
+        pr = subprocess.run([sys.executable, os.path.join(common.HERE, 'c17_real.py'), '--hashseed-worker'], input=json.dumps(job), text=True,
+                            stdout=subprocess.PIPE, stderr=subprocess.PIPE,
+                            env=dict(os.environ, PYTHONHASHSEED=str(hs % 4294967295), MALT_REPO=common.REPO))
+        if pr.returncode != 0:
+            raise common.InfraError('hashseed worker failed: ' + pr.stderr[-800:])
+        for r in json.loads(pr.stdout):
+            r['key'] += '#hs%d' % hs
+            r['calls'] = [tuple(t) if t is not None else None for t in (r.get('calls') or [])]
+            r['fails'] = [tuple(f) for f in r['fails']]
+            recs.append(r)
+    run.cov['hashseeds'] = hseeds
+    run.cov['hashseed_cases'] = len(hs_items) * 2 * len(hseeds)
     run.cov['wall_parallel_conversions_s'] = round(time.time() - t1, 1)
     run.cov['workers'] = nworkers
     run.cov['programs'] = info
